@@ -20,6 +20,7 @@ type prioView struct {
 	sendSeq  map[int]int64 // item -> seq of the discipline's write to the output
 	sendOrd  []pitem       // discipline's writes to the output, in order
 	gotSeq   map[int]int64 // item -> seq of the handler's receive (plain) / Handle entry (simple)
+	gotList  []int         // every handler receive / Handle entry, in order (duplicates visible)
 	relSeq   map[int]int64 // item -> seq of the release being issued (plain) / Handle exit (simple)
 	prioOf   map[int]uint  // item -> tag it was delivered with
 	libRecv  []libRecv     // discipline's receives from input channels
@@ -107,6 +108,7 @@ func viewPrio(sc *PrioSc, res *simrt.Result) *prioView {
 				v.newErr = r.Val
 			case r.Note == "got" || r.Note == "handle-enter":
 				v.gotSeq[int(r.Val)] = r.Seq
+				v.gotList = append(v.gotList, int(r.Val))
 				if r.Note == "got" {
 					v.prioOf[int(r.Val)] = uint(r.Aux)
 				}
@@ -417,20 +419,8 @@ func checkExactlyOnce(vd *Verdict, v *prioView) {
 	if sc.plain() {
 		delivered = v.sendOrd
 	} else {
-		type gs struct {
-			item int
-			seq  int64
-		}
-
-		var g []gs
-		for it, s := range v.gotSeq {
-			g = append(g, gs{it, s})
-		}
-
-		sort.Slice(g, func(i, j int) bool { return g[i].seq < g[j].seq })
-
-		for _, x := range g {
-			delivered = append(delivered, pitem{x.item, sc.Inputs[max(0, min(inputOf(x.item), len(sc.Inputs)-1))].Prio})
+		for _, it := range v.gotList {
+			delivered = append(delivered, pitem{it, sc.Inputs[max(0, min(inputOf(it), len(sc.Inputs)-1))].Prio})
 		}
 	}
 
